@@ -28,6 +28,78 @@ def minDev (x : List Rat) : Option Rat :=
                          if d = 0 then none else some d)).foldl
     (fun acc d => match acc with | none => some d | some a => some (min a d)) none
 
+
+/-- a large image travels as a formula: `{"lin": [a, c, m]}` is the row-major array with `a * p + c` at flat position
+`p` (`m = 0`) or `(a * p) % m + c` (`m > 0`: repeated values); `{"vals": [...]}` is the plain list -/
+def bigData (j : Json) (n : Nat) : R (Array Rat) := do
+  match j.getObjVal? "lin" with
+  | .ok l =>
+    match ← asList asInt l with
+    | [a, c, m] =>
+      if a < 0 ∨ m < 0 then throw "lin: negative a or m"
+      let a := a.toNat
+      let m := m.toNat
+      pure ((Array.range n).map (fun p => (((if m = 0 then a * p else (a * p) % m : Nat) : Int) + c : Int)))
+    | _ => throw "lin: expected [a, c, m]"
+  | .error _ =>
+    let v ← getList asRat j "vals"
+    if v.length ≠ n then throw "vals/shape mismatch"
+    pure v.toArray
+
+/-- run lengths, alternating, starting with `false` -/
+def expandRuns (runs : List Nat) : Array Bool := Id.run do
+  let mut out : Array Bool := #[]
+  let mut v := false
+  for r in runs do
+    out := out ++ Array.replicate r v
+    v := !v
+  return out
+
+/-- `[[start, count], ...]`: runs of consecutive integers -/
+def expandArange (runs : List (List Nat)) : List Nat :=
+  runs.flatMap (fun r => match r with
+    | [s, c] => (List.range c).map (· + s)
+    | _ => [])
+
+def maskedArr (a : Array Rat) (m : Array Bool) : List Rat :=
+  (List.range a.size).filterMap (fun p => if m.getD p false then some (a.getD p 0) else none)
+
+/-- the numbers behind one Pearson coefficient, each computed once -/
+structure PStats where
+  n : Nat
+  cov : Rat
+  vx : Rat
+  vy : Rat
+  mxy : Rat
+  mx : Rat
+  my : Rat
+
+/-- the integer values of a list of rationals that are all integers (checked by casting back) -/
+def intsOf (l : List Rat) : Option (List Int) :=
+  let is := l.map (·.num)
+  if is.map (fun (i : Int) => (i : Rat)) == l then some is else none
+
+/-- `cov`, `var` (as `cov x x`, theorem `var_fast`) and the three means; through integer sums when both lists are
+integer-valued (theorem `cov_int`: the same numbers) -/
+def pstats (xs ys : List Rat) : PStats :=
+  match intsOf xs, intsOf ys with
+  | some xi, some yi =>
+    let mx := meanI xi
+    let my := meanI yi
+    let mxy := meanI (List.zipWith (· * ·) xi yi)
+    { n := xs.length, cov := mxy - mx * my, vx := meanI (List.zipWith (· * ·) xi xi) - mx * mx,
+      vy := meanI (List.zipWith (· * ·) yi yi) - my * my, mxy := mxy, mx := mx, my := my }
+  | _, _ =>
+    let mx := mean xs
+    let my := mean ys
+    let mxy := mean (mulL xs ys)
+    { n := xs.length, cov := mxy - mx * my, vx := mean (mulL xs xs) - mx * mx, vy := mean (mulL ys ys) - my * my,
+      mxy := mxy, mx := mx, my := my }
+
+def statsJson (s : PStats) : Json :=
+  jObj [("n", jNat s.n), ("cov", jRat s.cov), ("var_x", jRat s.vx), ("var_y", jRat s.vy),
+        ("mean_xy", jRat s.mxy), ("mean_x", jRat s.mx), ("mean_y", jRat s.my)]
+
 def handle (op : String) (req : Json) : R Json := do
   match op with
   | "c14.coeff" =>
@@ -79,7 +151,8 @@ def handle (op : String) (req : Json) : R Json := do
         pure (jObj [("outside_fixed", jBool (specOutside x out mask b0 b1 padMode part)),
                     ("blocks_from_input", jBool (specBlocks x out mask b0 b1 padMode part)),
                     ("conserved_applies", jBool applies),
-                    ("conserved", jBool (!applies || specConserved x out))])
+                    ("conserved", jBool (!applies || specConserved x out)),
+                    ("blocks_permuted", jBool (!applies || specBlockMultiset x out mask b0 b1 padMode part))])
     pure (jObj [("idx", jList jNat idx), ("aliases", jBool aliases),
                 ("model", jOpt (jList jRat) (call.map (fun c => flat c.ret))),
                 ("x_after", jOpt (jList jRat) (call.map (fun c => flat c.xAfter))),
@@ -120,6 +193,76 @@ def handle (op : String) (req : Json) : R Json := do
                 ("x_after", jOpt (jList jRat) (call.map (fun c => flatNd c.xAfter))),
                 ("mask_after", jList jBool (maskFlat (shuffleCallNd true aliases x mask block padMode part idx).maskAfter)),
                 ("spec", spec)])
+  | "c14.shuffle_big" =>
+    -- a 2-D shuffle of any size: the specification relations in their quasi-linear forms (theorems
+    -- spec_outside_fast, spec_blocks_fast: the same Booleans as specOutside / specBlocks), the certificate
+    -- specApplied for the recorded permutation (theorem applied_determines_output), optionally the reference forms
+    let n0 ← getNat req "n0"
+    let n1 ← getNat req "n1"
+    let b0 ← getNat req "b0"
+    let b1 ← getNat req "b1"
+    let padMode ← getBool req "pad"
+    let part ← getBool req "partial"
+    let cC ← getBool req "c_contig"
+    let fC ← getBool req "f_contig"
+    let withRef ← getBool req "reference"
+    if b0 = 0 ∨ b1 = 0 then throw "zero block"
+    let xd ← fld req "x" >>= (bigData · (n0 * n1))
+    let md := expandRuns (← getList asNat req "mask_runs")
+    if md.size ≠ n0 * n1 then throw "mask_runs/shape mismatch"
+    let nidx ← fld req "nidx" >>= asOpt (asList asNat)
+    let argRuns ← fld req "arg_runs" >>= asOpt (asList (asList asNat))
+    let outj ← fld req "out"
+    let otherj ← fld req "other"
+    let x := mkImg n0 n1 xd
+    let mask := mkMask n0 n1 md
+    let idx := shuffleIdx x mask b0 b1 padMode part
+    let aliases := layoutAliases padMode cC fC
+    let other ← match otherj with
+      | .null => pure none
+      | j => some <$> bigData j (n0 * n1)
+    let ref ← match ← fld req "ref" with
+      | .null => pure none
+      | j => some <$> bigData j (n0 * n1)
+    let mut fields : List (String × Json) := [("n_selected", jNat idx.length), ("aliases", jBool aliases),
+      ("arg_is_idx", jOpt jBool (argRuns.map (fun r => expandArange r == idx))),
+      ("nidx_is_perm", jOpt jBool (nidx.map (fun s => isPermOfSorted s idx))),
+      ("nidx_is_idx", jOpt jBool (nidx.map (fun s => s == idx)))]
+    match outj with
+    | .null =>
+      fields := fields ++ [("spec", Json.null), ("applied", Json.null)]
+      match other, ref with
+      | some o, some rf => fields := fields ++ [("stats_ref", statsJson (pstats (maskedArr o md) (maskedArr rf md)))]
+      | _, _ => pure ()
+    | j =>
+      let od ← bigData j (n0 * n1)
+      let out := mkImg n0 n1 od
+      let applies := conservedApplies x b0 b1 padMode
+      let outside := specOutsideFast x out mask b0 b1 padMode part
+      let blocks := specBlocksFast x out mask b0 b1 padMode part
+      fields := fields ++ [("spec", jObj [("outside_fixed", jBool outside), ("blocks_from_input", jBool blocks),
+                                          ("conserved_applies", jBool applies),
+                                          ("conserved", jBool (!applies || specConserved x out))]),
+        -- the recorded permutation applied (a block view that does not alias the array loses the assignment)
+        ("applied", jOpt jBool (nidx.map (fun s =>
+            outside && specApplied x out mask b0 b1 padMode part (if aliases then s else idx))))]
+      if withRef then
+        fields := fields ++ [("reference", jObj [("outside_fixed", jBool (specOutside x out mask b0 b1 padMode part)),
+                                                 ("blocks_from_input", jBool (specBlocks x out mask b0 b1 padMode part))])]
+      -- Pearson's r of a second image against this result (and against a reference image), over the mask given:
+      -- what `pearsonr_probablity` computes per round; `rGt` decides `r_out > r_ref` exactly
+      match other, ref with
+      | some o, some rf =>
+        let xs := maskedArr o md
+        let ys := maskedArr rf md
+        let yo := maskedArr od md
+        let sr := pstats xs ys
+        let so := pstats xs yo
+        fields := fields ++ [("stats_ref", statsJson sr), ("stats_out", statsJson so),
+          ("out_gt_ref", jBool (rGt so.cov (so.vx * so.vy) sr.cov (sr.vx * sr.vy))),
+          ("out_same_as_ref", jBool (yo == ys))]
+      | _, _ => pure ()
+    pure (jObj fields)
   | "c14.prob_domain" =>
     let shape ← getList asNat req "shape"
     let n ← getNat req "n"
